@@ -482,6 +482,9 @@ pub fn on_resume() {
         let when = format!("after pause {}", w.pause.n);
         let found = post_pause_walk(w, &when, info);
         let iv = check_disjoint(w, &found, &when);
+        // -- C37
+        let moves: Vec<(u64, usize, usize)> = found.iter().map(|(id, raw)| (*id, w.objs[id].addr, *raw)).collect();
+        crate::oracle2::check_compressor_order(w, &moves);
         // -- C04 + address refresh
         let mut moved = 0u64;
         for (id, raw) in found.iter() {
